@@ -12,7 +12,10 @@ var categories []*unicode.RangeTable
 
 func init() {
 	for cat, table := range unicode.Categories {
-		if len(cat) == 2 {
+		// keep the 30 general categories, which are disjoint ("Cn", unassigned, and "LC", the
+		// union of Lu, Ll and Lt, have been added to the map by Go 1.25 : [LookupType]
+		// returns nil for an unassigned rune, and one category for a letter)
+		if len(cat) == 2 && cat != "Cn" && cat != "LC" {
 			categories = append(categories, table)
 		}
 	}
